@@ -276,4 +276,9 @@ theorem orbit_eq_map_iter (step : Nat → Nat) (start fuel : Nat) :
   · intro i h1 h2
     rw [orbit_getElem _ _ _ _ _ h1]; simp
 
+theorem CI_drainBack_done (back : Nat → Nat) (c : CI) (hd : c.done = true) (fuel : Nat) : CI.drainBack back c fuel = [] := by
+  cases fuel with
+  | zero => rfl
+  | succ f => simp [CI.drainBack, CI.nextBack, hd]
+
 end Spade
